@@ -202,6 +202,149 @@ func c09(c *core.Check) {
 	} else {
 		r2.Anchor("html/boxes.CreateAnonymousBox")
 	}
+
+	// ---- R3 the item fix-ups apply to both the block-level and the inline-level container
+	r3 := c.Rule("R3", "flexChildren and gridChildren treat the children of every flex (resp. grid) container, block-level or inline-level: the class they test at entry is implemented by both box types", 4)
+	classOf := c09ClassInterfaces(p)
+	for _, fx := range []struct {
+		fn    string
+		types []string
+	}{{"flexChildren", []string{"FlexBox", "InlineFlexBox"}}, {"gridChildren", []string{"GridBox", "InlineGridBox"}}} {
+		fn := p.Fn("html/boxes", fx.fn)
+		if fn == nil {
+			r3.Anchor("html/boxes." + fx.fn)
+			continue
+		}
+		// the test deciding the first branch of the function
+		var iface *types.Interface
+		desc := ""
+		if len(fn.Blocks) > 0 {
+			if ifi, ok := fn.Blocks[0].Instrs[len(fn.Blocks[0].Instrs)-1].(*ssa.If); ok {
+				switch x := ifi.Cond.(type) {
+				case *ssa.Extract:
+					if ta, ok := x.Tuple.(*ssa.TypeAssert); ok {
+						iface, _ = ta.AssertedType.Underlying().(*types.Interface)
+						desc = types.TypeString(ta.AssertedType, func(pk *types.Package) string { return pk.Name() })
+					}
+				case *ssa.Call:
+					if callee := x.Call.StaticCallee(); callee != nil && callee.Name() == "IsInstance" && len(x.Call.Args) == 2 {
+						if k, ok := core.ConstInt(x.Call.Args[0]); ok {
+							iface = classOf[k]
+							desc = fmt.Sprintf("BoxType(%d)", k)
+							for v, cst := range p.ConstsOfType("html/boxes", "BoxType") {
+								if v == k {
+									desc = cst.Name()
+								}
+							}
+						}
+					}
+				}
+			}
+		}
+		if iface == nil {
+			r3.Unknown("html/boxes."+fx.fn+" | container test", p.Pos(fn.Pos()), "the function does not start with a class test this rule recognises")
+			continue
+		}
+		for _, tn := range fx.types {
+			obj := p.ByPath["html/boxes"].Types.Scope().Lookup(tn)
+			if obj == nil {
+				r3.Anchor("html/boxes." + tn)
+				continue
+			}
+			ok := types.Implements(obj.Type(), iface) || types.Implements(types.NewPointer(obj.Type()), iface)
+			r3.Cond(ok, fmt.Sprintf("html/boxes.%s | applies to %s", fx.fn, tn), p.Pos(fn.Pos()), tn+" is an instance of "+desc, fmt.Sprintf("%s is not an instance of %s, the class tested at entry: its children are left as they are (not blockified, white space kept)", tn, desc))
+		}
+	}
+
+	// ---- R4 display: none generates nothing
+	r4 := c.Rule("R4", "elementToBox returns before creating any box, touching the style or recording a footnote when the element's display is none: every call of makeBox, SetDisplay, SetFloat and every recursive call is unreachable when the test display == none holds", 3)
+	if etb := p.Fn("html/boxes", "elementToBox"); etb == nil {
+		r4.Anchor("html/boxes.elementToBox")
+	} else {
+		// the atom: comparison of the display value with the literal {"none"}
+		var noneAtom ssa.Value
+		for _, a := range core.CondAtoms(etb) {
+			bo, ok := a.(*ssa.BinOp)
+			if !ok || bo.Op != token.EQL {
+				continue
+			}
+			for _, side := range []ssa.Value{bo.X, bo.Y} {
+				if u, ok := side.(*ssa.UnOp); ok {
+					if al, ok := u.X.(*ssa.Alloc); ok && al.Referrers() != nil {
+						for _, r := range *al.Referrers() {
+							if ia, ok := r.(*ssa.IndexAddr); ok && ia.Referrers() != nil {
+								for _, rr := range *ia.Referrers() {
+									if st, ok := rr.(*ssa.Store); ok {
+										if s, ok := core.ConstStr(st.Val); ok && s == "none" {
+											noneAtom = a
+										}
+									}
+								}
+							}
+						}
+					}
+				}
+			}
+		}
+		if noneAtom == nil {
+			r4.Fail("elementToBox | display none test", p.Pos(etb.Pos()), "no comparison of the display value with {\"none\"} found")
+		} else {
+			reach := core.ForwardReach(etb.Blocks[0], map[ssa.Value]bool{noneAtom: true}, nil)
+			n := 0
+			core.Instrs(etb, func(in ssa.Instruction) {
+				call, ok := in.(ssa.CallInstruction)
+				if !ok {
+					return
+				}
+				name := ""
+				if call.Common().IsInvoke() {
+					name = call.Common().Method.Name()
+				} else if callee := call.Common().StaticCallee(); callee != nil {
+					name = callee.Name()
+				}
+				switch name {
+				case "makeBox", "SetDisplay", "SetFloat", "elementToBox":
+				default:
+					return
+				}
+				n++
+				key := "elementToBox | " + p.StmtTextAt(etb, in.Pos())
+				r4.Cond(!reach[in.Block()], key, p.Pos(in.Pos()), "not reached when display is none", name+" is reached although the element's display is none: an element that must generate no box changes the tree")
+			})
+			if n < 3 {
+				r4.Unknown("elementToBox | sites", p.Pos(etb.Pos()), fmt.Sprintf("%d box-creating or style-writing calls found", n))
+			}
+		}
+	}
+}
+
+// c09ClassInterfaces extracts from BoxType.IsInstance the interface each class constant stands for.
+func c09ClassInterfaces(p *core.Prog) map[int64]*types.Interface {
+	out := map[int64]*types.Interface{}
+	fn := p.Lookup("html/boxes.BoxType.IsInstance")
+	if fn == nil {
+		return out
+	}
+	// each case block: t == K leads to a block with one comma-ok assertion
+	for _, a := range core.CondAtoms(fn) {
+		bo, ok := a.(*ssa.BinOp)
+		if !ok || bo.Op != token.EQL {
+			continue
+		}
+		k, ok := core.ConstInt(bo.Y)
+		if !ok {
+			continue
+		}
+		blk := bo.Block().Succs[0]
+		for _, in := range blk.Instrs {
+			if ta, ok := in.(*ssa.TypeAssert); ok && ta.CommaOk {
+				if it, ok := ta.AssertedType.Underlying().(*types.Interface); ok {
+					out[k] = it
+				}
+			}
+		}
+	}
+	return out
 }
 
 // wsSites finds, in a function body, the boolean chains that test a white-space value against keywords.
@@ -399,6 +542,10 @@ func c11(c *core.Check) {
 			}
 		}
 	}
+
+	r3 := c.Rule("R3", "sibling symmetry in inline layout code: two assignments of one block that differ by a side (Top/Bottom, Left/Right) on the left and have the same shape on the right mirror every side name of that axis", 1)
+	sideSymmetryRule(c, r3, "html/layout", map[string]bool{"inline.go": true, "leader.go": true}, 1)
+
 }
 
 func returnStringSets(p *core.Prog, fn *ssa.Function) []string {
